@@ -1,96 +1,56 @@
 (** Run_C02.v — monitor for C02 "Per-link in-flight count equals packets sent and
-    not yet retired": replays the abstract set specification of the property text
-    next to the implementation's trace. *)
+    not yet retired".  The abstract state of the property is, per link, the SET of
+    outstanding sequence numbers; it is read off the observed packet-log keys, and
+    every op must move it exactly as the property text prescribes. *)
 From Srtla Require Import Base Constants Conn.
 From Srtla Require Export Conn Run_Core.
 
-(** spec state: per link the set of outstanding sequence numbers (sorted, distinct) *)
-Definition sset := list Z.
-Definition s_add (x : Z) (s : sset) : sset := if existsb (Z.eqb x) s then s else insert_sorted x s.
-Definition s_del (x : Z) (s : sset) : sset := filter (fun y => negb (y =? x)) s.
+Definition sset := list Z.     (* strictly increasing *)
 Definition s_mem (x : Z) (s : sset) : bool := existsb (Z.eqb x) s.
+Definition s_add (x : Z) (s : sset) : sset := if s_mem x s then s else insert_sorted x s.
+Definition s_del (x : Z) (s : sset) : sset := filter (fun y => negb (y =? x)) s.
 
-Fixpoint s_upd (i : nat) (f : sset -> sset) (l : list sset) : list sset :=
-  match l, i with
-  | [], _ => []
-  | x :: t, O => f x :: t
-  | x :: t, S k => x :: s_upd k f t
-  end.
+Definition others_same (i : nat) (p n : obs) : bool :=
+  forall_idx (fun k x y => Nat.eqb k i || zlist_eqb (o_keys x) (o_keys y)) O p n.
+Definition all_same (p n : obs) : bool := forall2b (fun x y => zlist_eqb (o_keys x) (o_keys y)) p n.
+Definition keys_at (i : nat) (o : obs) : sset := o_keys (nth i o ([], [])).
+Fixpoint other_holder_from (seq : Z) (idx : nat) (i : nat) (l : obs) : bool :=
+  match l with [] => false | x :: t => (negb (Nat.eqb i idx) && s_mem seq (o_keys x)) || other_holder_from seq idx (S i) t end.
+Definition any_other_holder (seq : Z) (idx : nat) (p : obs) : bool := other_holder_from seq idx O p.
 
-(** per-packet SRTLA ACK: arrival link if it holds the packet, otherwise ONE other holder
-    (which one is not fixed by the property: the observed trace decides) *)
-Fixpoint first_holder (seq : Z) (skip : nat) (i : nat) (l : list sset) : option nat :=
-  match l with
-  | [] => None
-  | s :: t => if negb (Nat.eqb i skip) && s_mem seq s then Some i else first_holder seq skip (S i) t
-  end.
-
-(** which single link lost [seq] between two observations (None = none) *)
-Fixpoint lost_on (seq : Z) (i : nat) (p n : obs) : list nat :=
-  match p, n with
-  | x :: p', y :: n' =>
-    (if s_mem seq (o_keys x) && negb (s_mem seq (o_keys y)) then [i] else []) ++ lost_on seq (S i) p' n'
-  | _, _ => []
-  end.
-Fixpoint charged_on (i : nat) (p n : obs) : list nat :=
-  match p, n with
-  | x :: p', y :: n' => (if o_nakcount x <? o_nakcount y then [i] else []) ++ charged_on (S i) p' n'
-  | _, _ => []
-  end.
-
-Definition spec_step (sp : list sset) (o : op) (p n : obs) : list sset * bool :=
+(** the retirement rules of the property text *)
+Definition allowed (o : op) (p n : obs) : bool :=
   match o with
-  | ORegister i seq _ => (s_upd i (s_add seq) sp, true)
-  | OSrtAck a _ => (map (filter (fun s => a <? s)) sp, true)
-  | OSrtlaAck idx seq _ _ =>
-    match nth_error sp idx with
-    | Some s =>
-      if s_mem seq s then (s_upd idx (s_del seq) sp, true)
+  | ORegister i seq _ =>
+    others_same i p n && (if i <? length p then zlist_eqb (keys_at i n) (s_add seq (keys_at i p)) else true)%nat
+  | OSrtAck a _ =>      (* cumulative ACK at or beyond it, on every link *)
+    forall2b (fun x y => zlist_eqb (o_keys y) (filter (fun s => a <? s) (o_keys x))) p n
+  | OSrtlaAck idx seq _ _ =>   (* arrival link if it holds it, otherwise ONE other holder *)
+    if (idx <? length p)%nat then
+      if s_mem seq (keys_at idx p) then
+        others_same idx p n && zlist_eqb (keys_at idx n) (s_del seq (keys_at idx p))
       else
-        (* exactly one other holder, if any holder exists *)
-        match lost_on seq O p n with
-        | [] => (sp, match first_holder seq idx O sp with None => true | Some _ => false end)
-        | [j] => (s_upd j (s_del seq) sp,
-                  negb (Nat.eqb j idx) && s_mem seq (nth j sp []))
-        | _ => (sp, false)
-        end
-    | None => (sp, true)
-    end
-  | ONak seq _ =>
-    (* retired on the link the NAK was charged to; at most one link is charged *)
-    match charged_on O p n with
-    | [] => (sp, true)
-    | [j] => (s_upd j (s_del seq) sp, s_mem seq (nth j sp []))
-    | _ => (sp, false)
-    end
-  | OMarkRecovery i | OResetReconnect i | OReg3 i _ => (s_upd i (fun _ => []) sp, true)
-  | _ => (sp, true)
+        (all_same p n && negb (any_other_holder seq idx p)) ||
+        existsb (fun j => negb (Nat.eqb j idx) && s_mem seq (keys_at j p) && others_same j p n &&
+                          zlist_eqb (keys_at j n) (s_del seq (keys_at j p))) (List.seq 0%nat (length p))
+    else all_same p n
+  | ONak seq _ =>               (* retired on the link the NAK is charged to, and only there *)
+    all_same p n ||
+    existsb (fun j => s_mem seq (keys_at j p) && others_same j p n &&
+                      zlist_eqb (keys_at j n) (s_del seq (keys_at j p))) (List.seq 0%nat (length p))
+  | OMarkRecovery i | OResetReconnect i | OReg3 i _ =>
+    others_same i p n && (if i <? length p then zlist_eqb (keys_at i n) [] else true)%nat
+  | _ => all_same p n
   end.
 
-(** clauses: 1 spec step itself inconsistent with the trace (two holders retired, NAK charged twice, ...),
-    2 in-flight <> |set|, 3 log keys <> set, 4 negative in-flight, 5 a link not holding the
-    ACKed/NAKed number changed its log/in-flight, 6 initial state not empty *)
-Definition c02_agree (sp : list sset) (n : obs) : N :=
-  if negb (Nat.eqb (length sp) (length n)) then 2%N else
-  first_clause
-    [(2%N, forall2b (fun s l => o_inflight l =? blen s) sp n);
-     (3%N, forall2b (fun s l => zlist_eqb (o_keys l) s) sp n);
-     (4%N, forallb (fun l => 0 <=? o_inflight l) n)].
-
-Definition foreign_untouched (o : op) (p n : obs) : bool :=
-  match o with
-  | OSrtlaAck _ seq _ _ | ONak seq _ =>
-    forall2b (fun x y => if s_mem seq (o_keys x) then true
-                         else zlist_eqb (o_keys x) (o_keys y) && (o_inflight x =? o_inflight y)) p n
-  | _ => true
-  end.
-
-Definition mon_C02 : monitor (list sset) :=
-  {| m_init := fun _ ob => (map (fun _ => []) ob, if forallb (fun l => (o_inflight l =? 0) && zlist_eqb (o_keys l) []) ob then 0%N else 6%N);
-     m_step := fun sp o p n =>
-       let '(sp', ok) := spec_step sp o p n in
-       (sp', if negb ok then 1%N
-             else let c := c02_agree sp' n in
-                  if (c =? 0)%N then (if foreign_untouched o p n then 0%N else 5%N) else c) |}.
+(** clauses: 1 set moved against the retirement rules, 2 in-flight <> |set|,
+    4 negative in-flight, 6 initial state not empty, 8 shape changed *)
+Definition mon_C02 : monitor unit :=
+  {| m_init := fun _ ob => (tt, if forallb (fun l => (o_inflight l =? 0) && zlist_eqb (o_keys l) []) ob then 0%N else 6%N);
+     m_step := fun _ o p n =>
+       (tt, if negb (Nat.eqb (length p) (length n)) then 8%N
+            else if negb (allowed o p n) then 1%N
+            else if negb (forallb (fun l => o_inflight l =? blen (o_keys l)) n) then 2%N
+            else if negb (forallb (fun l => 0 <=? o_inflight l) n) then 4%N else 0%N) |}.
 
 Definition check_case (c : case) : N := check_with mon_C02 c.
